@@ -126,7 +126,9 @@ class _Linalg:
     def norm(self, x, ord=None, axis=None, **kw):
         if has_sym(x) and axis is None and ord in (None, 2):
             sq = fold_sum([i * i for i in _np.asarray(x, dtype=object).ravel()])
-            return sym_sqrt(sq)
+            if isinstance(sq, SymReal):
+                return S.SymNorm(sq.t)
+            return _math.sqrt(sq)
         return self._r.norm(x, ord=ord, axis=axis, **kw)
 
 
